@@ -423,6 +423,28 @@ def dbg_shape(col, pid, rng, n, edges):
         if col.evaluations % 300 < 30:
             col.sample(dict(source=S.render(spec), debug=[ids[i] for i in sorted(debug)], setup=[ids[i] for i in sorted(setup)],
                             ops=[(o, S.jsonable(k)) for o, k, _t in ops][:4]))
+        # a debug node that FAILS: nothing that needs its output may run with the input missing (flag on)
+        chains = [(j, k) for (j, k) in edges if j in debug and k in debug]
+        if chains:
+            j, k = rng.choice(chains)
+            cfg.RUN_DEBUG_NODES = True
+            d, _e, _p = S.build_tawazi(spec, plain=plain)
+            probes.State.faults = {ids[j]}
+            try:
+                res, log = run_any(d, "call", {}, [Sym("arg", 6)])
+            finally:
+                probes.State.faults = set()
+            col.evaluations += 1
+            col.counters["c13_failing_debug_node_cases"] += 1
+            ent = [e["node"] for e in log if e["kind"] == "FENTER"]
+            failed = any(e["kind"] == "XEXIT" and not e["ok"] and e["node"] == ids[j] for e in log)
+            if failed:
+                desc = nx.descendants(S.site_graph(spec), j)
+                ran = [ids[q] for q in desc if ids[q] in ent]
+                if ran:
+                    col.violation(pid, "debug_node_ran_although_the_debug_node_it_depends_on_failed", dict(
+                        failed=ids[j], ran=ran, outcome=res[0], source=S.render(spec), debug=[ids[i] for i in sorted(debug)]), rp)
+            col.generic(log, rp)
     finally:
         cfg.RUN_DEBUG_NODES = old
     # illegal DAG: a non-debug node depending on a debug node must be rejected at build time
@@ -451,15 +473,68 @@ def dbg_shape(col, pid, rng, n, edges):
                     raise
 
 
+def dbg_nested(col, pid, rng, k):
+    """Debug nodes inside a DAG that is nested in another DAG follow the flag's value at CALL time, like any other."""
+    from tawazi import dag, xn
+    from tawazi.config import cfg
+
+    old = cfg.RUN_DEBUG_NODES
+    rp = {"kind": "dbg_nested", "k": k}
+    try:
+        build_flag = rng.random() < 0.3
+        cfg.RUN_DEBUG_NODES = build_flag
+        f_ = xn(probes.mkprobe("dn_f%d" % k))
+        g_ = xn(probes.mkprobe("dn_g%d" % k))
+        di = xn(debug=True)(probes.mkprobe("dn_dbg_inner%d" % k))
+        do_ = xn(debug=True)(probes.mkprobe("dn_dbg_outer%d" % k))
+
+        def inner_fn(x):
+            a = f_(x)
+            di(a)
+            return a
+
+        inner_fn.__name__ = inner_fn.__qualname__ = "dn_inner%d" % k
+        inner = dag(inner_fn)
+
+        def outer_fn(x):
+            r = inner(x)
+            do_(r)
+            return g_(r)
+
+        outer_fn.__name__ = outer_fn.__qualname__ = "dn_outer%d" % k
+        outer = dag(is_async=rng.random() < 0.3)(outer_fn)
+        for flag in rng.sample([False, True, True, False], 3):
+            cfg.RUN_DEBUG_NODES = flag
+            op = rng.choice(["call", "executor"])
+            res, log = run_any(outer, op, {}, [Sym("arg", k, flag)])
+            col.evaluations += 1
+            col.counters["c13_nested_debug_runs"] += 1
+            cnt = {nm: sum(1 for e in log if e["kind"] == "FENTER" and e["fn"] == nm) for nm in ("dn_dbg_inner%d" % k, "dn_dbg_outer%d" % k)}
+            exp = 1 if flag else 0
+            if res[0] != "ok":
+                col.violation(pid, "operation_raised(flag_%s)" % ("on" if flag else "off"), dict(scenario="debug node inside a nested DAG", exc=repr(res[1])[:200]), rp)
+            elif any(c != exp for c in cnt.values()):
+                col.violation(pid, "nested_dag_debug_node_does_not_follow_the_flag_at_call_time", dict(
+                    flag=flag, flag_when_built=build_flag, op=op, entered=cnt, expected_each=exp), rp)
+        col.hashes.add(S.spec_hash({"nested_dbg": k % 7, "b": build_flag}))
+    finally:
+        cfg.RUN_DEBUG_NODES = old
+
+
+REGISTRY["replay:dbg_nested"] = lambda j, rp: (lambda col: ([dbg_nested(col, "C13", random.Random(q), q) for q in range(20)], col.result())[1])(Collector())
+
+
 @job("dbg")
 def job_dbg(j):
     rng = random.Random(j["seed"])
     col = Collector()
     pid = "C13"
-    for _ in range(j.get("random_shapes", 50)):
+    for q in range(j.get("random_shapes", 50)):
         n = rng.randint(2, j.get("nmax", 8))
         edges = [(a, b) for b in range(n) for a in range(b) if rng.random() < 0.3]
         dbg_shape(col, pid, rng, n, edges)
+        if q % 5 == 2:
+            dbg_nested(col, pid, rng, q)
     for n in j.get("exhaustive_n", []):
         shapes = list(all_shapes(n))
         for k, edges in enumerate(shapes):
